@@ -211,7 +211,7 @@ def initial_state(ex, spec, fnode):
     return st, a
 
 
-def verify_unit(spec, registry, fuel=2, timeout_ms=10000, mutate=None):
+def verify_unit(spec, registry, fuel=2, timeout_ms=10000, mutate=None, prop=None):
     """Symbolically execute the real body of spec.addr and generate every obligation of its contract."""
     unit = extract.get_unit(spec.addr)
     fnode = unit.node
@@ -232,21 +232,22 @@ def verify_unit(spec, registry, fuel=2, timeout_ms=10000, mutate=None):
         for s, o in ex.exec_block(st, fnode.body):
             ex.paths += 1
             cc = Ctx(ex, pre, s, a)
+            parts = []
             if o is NORMAL or o[0] == "return":
                 v = VNONE if o is NORMAL else o[1]
                 tag = "exit[return]#%d" % ex.ordinal("exit:ret")
                 for nm, f in spec.ensures_ret(cc, v):
-                    ex.oblige(s, "%s.ensures.%s" % (tag, nm), f, assume=False)
+                    parts.append(("%s.ensures.%s" % (tag, nm), f, "ensures"))
                 ex.cover.add("return")
             elif o[0] == "raise":
                 tag = "exit[raise]#%d" % ex.ordinal("exit:raise")
                 for nm, f in spec.ensures_raise(cc, V("ref", o[1].exc)):
-                    ex.oblige(s, "%s.ensures.%s" % (tag, nm), f, assume=False)
+                    parts.append(("%s.ensures.%s" % (tag, nm), f, "ensures"))
                 ex.cover.add("raise")
             else:
                 raise Unsupported("%s escapes the function" % o[0])
             if s.todo is not None:
-                ex.oblige(s, "%s.trace_complete" % tag, z3.Length(s.todo) == 0, kind="trace", assume=False)
+                parts.append(("%s.trace_complete" % tag, z3.Length(s.todo) == 0, "trace"))
             # frame: every pre-existing object outside the modifies clause is unchanged
             mods = spec.modifies(cc)
             for fld, arr in sorted(s.heap.items()):
@@ -254,9 +255,17 @@ def verify_unit(spec, registry, fuel=2, timeout_ms=10000, mutate=None):
                     continue
                 r = fresh("frame_r")
                 excl = [r != m for f2, m in mods if f2 == fld]
-                ex.oblige(s, "%s.frame.%s" % (tag, fld),
-                          z3.Implies(z3.And([r < pre.ctr] + excl), z3.Select(arr, r) == z3.Select(pre.field(fld), r)),
-                          kind="frame", assume=False)
+                parts.append(("%s.frame.%s" % (tag, fld),
+                              z3.Implies(z3.And([r < pre.ctr] + excl), z3.Select(arr, r) == z3.Select(pre.field(fld), r)), "frame"))
+            # one VC per exit path (conjunction of its clauses); split again only if it does not discharge
+            goals = [z3.simplify(g) for _, g, _ in parts]
+            live = [(n, g, k) for (n, _, k), g in zip(parts, goals) if not z3.is_true(g)]
+            if live:
+                ex.obls.append(Obligation("%s/%s.all" % (ex.unit_name, tag), s.pc, z3.And([g for _, g, _ in live]) if len(live) > 1 else live[0][1],
+                                          "exit", {"path": list(s.path), "parts": live, "clauses": len(parts)}))
+            else:
+                ex.obls.append(Obligation("%s/%s.all" % (ex.unit_name, tag), [], z3.BoolVal(True), "exit",
+                                          {"path": list(s.path), "trivial": True, "clauses": len(parts)}))
     except Unsupported as e:
         rep.error = "unsupported: %s" % e
     rep.symex_s = time.time() - t0
@@ -265,7 +274,24 @@ def verify_unit(spec, registry, fuel=2, timeout_ms=10000, mutate=None):
     rep.pruned = ex.pruned
     rep.cover = ex.cover
     t1 = time.time()
+    if prop is not None:
+        # clauses that exist only because of another property's statement are that property's business
+        ex.obls = [o for o in ex.obls if not o.meta.get("props") or prop in o.meta["props"]]
     if rep.error is None:
         rep.results = solve.discharge_all(ex.obls, registry.specfuns, fuel=max(fuel, 2), timeout_ms=timeout_ms)
+        # an exit VC that did not discharge is split into its clauses so that the failing clause is named
+        obls2, res2, split = [], [], []
+        for o, r in zip(ex.obls, rep.results):
+            if r["status"] != "proved" and o.meta.get("parts"):
+                for n, g, k in o.meta["parts"]:
+                    split.append(Obligation("%s/%s" % (ex.unit_name, n), o.hyps, g, k, {"path": o.meta.get("path")}))
+            else:
+                obls2.append(o)
+                res2.append(r)
+        if split:
+            obls2 += split
+            res2 += solve.discharge_all(split, registry.specfuns, fuel=max(fuel, 2), timeout_ms=timeout_ms)
+        ex.obls, rep.results = obls2, res2
+        rep.obligations = obls2
     rep.solve_s = time.time() - t1
     return rep
